@@ -5,8 +5,9 @@ from pysym.harness import run_cases
 
 LEVEL = 'exploration'
 DEDUCTIVE = [('contracts.hashes', ('Dynamic', 'CANARY'))]          # (contract module, case-name filter) run by engine P
-FINISH = dict(rule='see checks/b15.py RULE / run.bound entries', explanation='bounded stand-in (engine B) of the contracts of DESIGN §2 C15; '
-              'labelled bounded, never counted as proved', trusted_base=['CPython 3.12', 'oracles/*', 'RDKit where stated'])
+FINISH = dict(rule='deductive: one obligation per path / table key; B: see run.bound entries of checks/b15.py',
+              explanation='T: dynamic token tables injective and disjoint from static tokens; P: DynamicBond/DynamicElement hashed tuples and is_dynamic <=> the two sides differ, all values; B: role-order independence, round trip, exact dynamic labels vs independent diff',
+              trusted_base=['CPython', 'z3', 'pysym', 'oracles/o15_diff.py'])
 replay = make_replay('C15')
 
 
